@@ -378,3 +378,365 @@ Qed.
 (* both slot conditions hold of a fresh proxy *)
 Lemma slots_ok_init c now lc ip port : udp_slot_ok ip port (init_pstate c now lc) /\ tcp_slot_ok (init_pstate c now lc).
 Proof. split; [exact I|intros k f []]. Qed.
+
+(* ====================================================================== Part 4: independence *)
+(* replace pin table, rotation and generation counter *)
+Definition graft (pins' : pins) (rr' : rr) (gen' : nat) (p : pstate) : pstate :=
+  {| ps_backends := ps_backends p; ps_rr := rr'; ps_has_rr := ps_has_rr p; ps_gen := gen'; ps_pins := pins';
+     ps_table := ps_table p; ps_clients := ps_clients p; ps_last_clean := ps_last_clean p |}.
+
+Section Graft.
+Variables (pins' : pins) (rr' : rr) (gen' : nat).
+Let G := graft pins' rr' gen'.
+
+Lemma G_clean now p : clean_expired now (G p) = G (clean_expired now p).
+Proof. unfold clean_expired, G, graft. cbn. destruct (Z.ltb _ 60); reflexivity. Qed.
+Lemma G_get_transport now proto host port tid p :
+  get_transport now proto host port tid (G p) =
+  (G (fst (get_transport now proto host port tid p)), snd (get_transport now proto host port tid p)).
+Proof.
+  unfold get_transport. cbv zeta. rewrite G_clean. set (p' := clean_expired now p).
+  destruct (negb _); [reflexivity|]. change (ps_table (G p')) with (ps_table p').
+  destruct (alookup _ (ps_table p')); [reflexivity|].
+  destruct (beq _ (s2b "udp")); [destruct (resolvable host port); reflexivity|].
+  destruct (alookup _ (ps_table p')); reflexivity.
+Qed.
+Lemma G_tcp_client_send n : forall li local rs id b p cs w outs,
+  tcp_client_send n li local rs id b (G p) cs w outs =
+  let '(p', cs', w', outs', ok) := tcp_client_send n li local rs id b p cs w outs in (G p', cs', w', outs', ok).
+Proof.
+  induction n as [|n IH]; intros li local rs id b p cs w outs; cbn [tcp_client_send]; [reflexivity|].
+  change (ps_clients (G p)) with (ps_clients p).
+  destruct (find_client id (ps_clients p)) as [cl|]; [|reflexivity].
+  destruct (tc_cached cl) as [c|].
+  - destruct (conn_open cs c); [reflexivity|].
+    change (with_clients (G p) ?X) with (G (with_clients p X)). apply IH.
+  - destruct (existsb _ (w_tcp_listeners w)); [|reflexivity].
+    change (with_clients (G p) ?X) with (G (with_clients p X)). apply IH.
+Qed.
+Lemma G_failover_send li local rs f b p cs w :
+  failover_send li local rs f b (G p) cs w =
+  let '(p', cs', w', outs, ok, f') := failover_send li local rs f b p cs w in (G p', cs', w', outs, ok, f').
+Proof.
+  unfold failover_send.
+  assert (SEC : forall f1 outs0,
+    match fo_sec f1 with
+    | Some id => let '(p2, cs2, w2, outs2, ok) := tcp_client_send 2 li local rs id b (G p) cs w outs0 in (p2, cs2, w2, outs2, ok, f1)
+    | None => (G p, cs, w, outs0, false, f1)
+    end =
+    let '(p', cs', w', outs, ok, f') :=
+      match fo_sec f1 with
+      | Some id => let '(p2, cs2, w2, outs2, ok) := tcp_client_send 2 li local rs id b p cs w outs0 in (p2, cs2, w2, outs2, ok, f1)
+      | None => (p, cs, w, outs0, false, f1)
+      end in (G p', cs', w', outs, ok, f')).
+  { intros f1 outs0. destruct (fo_sec f1) as [id|]; [|reflexivity].
+    rewrite G_tcp_client_send. destruct (tcp_client_send 2 li local rs id b p cs w outs0) as [[[[p2 cs2] w2] outs2] ok2]. reflexivity. }
+  destruct (fo_pri f) as [[ip port|ip port|c ex]|].
+  - destruct (fits_datagram b); [reflexivity|apply SEC].
+  - destruct (fits_datagram b); [reflexivity|apply SEC].
+  - destruct (conn_open cs c); [reflexivity|apply SEC].
+  - apply SEC.
+Qed.
+End Graft.
+
+(* no table entry under a udp key has lost its client (see udp_slot_ok) *)
+Definition udp_known (p : pstate) : Prop :=
+  forall k f, In (k, f) (ps_table p) -> has_prefix (s2b "udp://") k = true -> fo_pri f <> None.
+
+Lemma get_transport_udp_known now tr host port tid p p1 key :
+  equal_fold tr (s2b "udp") = true -> udp_known p -> get_transport now tr host port tid p = (p1, Ok key) ->
+  forall f, alookup key (ps_table p1) = Some f -> fo_pri f <> None.
+Proof.
+  intros EU HK. assert (Htr : to_lower tr = s2b "udp") by (unfold equal_fold in EU; apply beq_eq in EU; exact EU).
+  unfold get_transport. cbv zeta. rewrite Htr.
+  change (negb (supported_proto (s2b "udp"))) with false. cbv iota. rewrite udp_key_tid.
+  change (beq (s2b "udp") (s2b "udp")) with true. cbv iota.
+  destruct (alookup (udp_key host port) (ps_table (clean_expired now p))) as [f0|] eqn:EC.
+  - intros H. injection H as <- <-. intros f EF.
+    assert (E2 : Some f0 = Some f) by (rewrite <- EC; exact EF). injection E2 as <-.
+    apply clean_lookup_in in EC. apply (HK _ _ EC). reflexivity.
+  - destruct (resolvable host port); [|discriminate].
+    intros H. injection H as <- <-. intros f EF. cbn [ps_table with_table] in EF.
+    assert (E2 : Some {| fo_pri := Some (PUdp host port); fo_sec := None |} = Some f)
+      by (rewrite <- EF; symmetry; apply alookup_aset_same).
+    injection E2 as <-. discriminate.
+Qed.
+
+Definition regraft pins' rr' gen' (l' : learned) (x : ctx) : ctx :=
+  {| x_learned := l'; x_p := graft pins' rr' gen' (x_p x); x_conns := x_conns x; x_world := x_world x; x_outs := x_outs x |}.
+
+Lemma send_message_regraft pins' rr' gen' l' e host port tr m x :
+  fx_udp_via_listener (e_fx e) = true -> udp_known (x_p x) ->
+  send_message e host port tr m (regraft pins' rr' gen' l' x) =
+  (regraft pins' rr' gen' l' (fst (send_message e host port tr m x)), snd (send_message e host port tr m x)).
+Proof.
+  intros Hfx HK. unfold send_message. cbn [regraft x_learned x_p x_conns x_world x_outs].
+  destruct (mtry s_client_transaction m) as [m1 tid]. rewrite G_get_transport.
+  destruct (get_transport _ _ _ _ _ (x_p x)) as [p1 rkey] eqn:EG. cbn [fst snd].
+  destruct rkey as [key| |]; try reflexivity.
+  pose proof (fun EU => get_transport_udp_known _ _ _ _ _ _ _ _ EU HK EG) as HU.
+  change (ps_table (graft pins' rr' gen' p1)) with (ps_table p1). rewrite Hfx. cbn [andb].
+  set (P2 := match alookup key (ps_table p1) with Some {| fo_pri := None |} => _ | _ => p1 end).
+  assert (E2 : P2 = p1).
+  { subst P2. destruct (alookup key (ps_table p1)) as [[[pr|] sec]|] eqn:EF; try reflexivity.
+    destruct (equal_fold tr (s2b "udp")) eqn:EU; [|reflexivity].
+    exfalso. exact (HU eq_refl _ eq_refl eq_refl). }
+  set (P2' := match alookup key (ps_table p1) with Some {| fo_pri := None |} => _ | _ => graft pins' rr' gen' p1 end).
+  assert (E2' : P2' = graft pins' rr' gen' p1).
+  { subst P2'. destruct (alookup key (ps_table p1)) as [[[pr|] sec]|] eqn:EF; try reflexivity.
+    destruct (equal_fold tr (s2b "udp")) eqn:EU; [|reflexivity].
+    exfalso. exact (HU eq_refl _ eq_refl eq_refl). }
+  rewrite E2, E2'. change (ps_table (graft pins' rr' gen' p1)) with (ps_table p1).
+  destruct (alookup key (ps_table p1)) as [f|]; [|reflexivity].
+  set (P3 := if is_final_response m1 then remove_transport tr host port _ p1 else p1).
+  assert (E3 : (if is_final_response m1 then remove_transport tr host port match tid with Ok (Some t) => t | _ => [] end (graft pins' rr' gen' p1)
+                else graft pins' rr' gen' p1) = graft pins' rr' gen' P3).
+  { subst P3. destruct (is_final_response m1); [|reflexivity]. unfold remove_transport. cbv zeta.
+    destruct (negb (supported_proto (to_lower tr))); reflexivity. }
+  rewrite E3, G_failover_send.
+  destruct (failover_send _ _ _ f _ P3 _ _) as [[[[[p4 cs] w] outs] ok] f'].
+  change (ps_table (graft pins' rr' gen' p4)) with (ps_table p4).
+  destruct (alookup key (ps_table p4)); reflexivity.
+Qed.
+
+(* two contexts that differ only in learned table, pin table, rotation, generation counter *)
+Definition same_core (x y : ctx) : Prop :=
+  x_conns y = x_conns x /\ x_world y = x_world x /\ x_outs y = x_outs x /\
+  ps_backends (x_p y) = ps_backends (x_p x) /\ ps_has_rr (x_p y) = ps_has_rr (x_p x) /\
+  ps_table (x_p y) = ps_table (x_p x) /\ ps_clients (x_p y) = ps_clients (x_p x) /\
+  ps_last_clean (x_p y) = ps_last_clean (x_p x).
+
+Lemma send_message_indep e host port tr m x y :
+  fx_udp_via_listener (e_fx e) = true -> udp_known (x_p x) -> same_core x y ->
+  x_outs (fst (send_message e host port tr m y)) = x_outs (fst (send_message e host port tr m x)) /\
+  x_conns (fst (send_message e host port tr m y)) = x_conns (fst (send_message e host port tr m x)) /\
+  x_world (fst (send_message e host port tr m y)) = x_world (fst (send_message e host port tr m x)).
+Proof.
+  intros Hfx HK (C1 & C2 & C3 & C4 & C5 & C6 & C7 & C8).
+  assert (Ey : y = regraft (ps_pins (x_p y)) (ps_rr (x_p y)) (ps_gen (x_p y)) (x_learned y) x).
+  { destruct y as [ly py cy wy oy]. destruct py. cbn in *. subst. reflexivity. }
+  rewrite Ey, send_message_regraft by assumption. cbn [fst regraft x_outs x_conns x_world]. repeat split.
+Qed.
+
+(* (d) where a response goes does not depend on the pin table, the rotation or the learned
+   table: the outputs (destinations AND bytes) are the same *)
+Theorem C02_independent_of_pins : forall e from m x pins' rr' gen' l',
+  is_response m = true -> fx_udp_via_listener (e_fx e) = true -> udp_known (x_p x) ->
+  let y := {| x_learned := l'; x_p := graft pins' rr' gen' (x_p x); x_conns := x_conns x;
+              x_world := x_world x; x_outs := x_outs x |} in
+  x_outs (fst (handle_message e from m y)) = x_outs (fst (handle_message e from m x)) /\
+  x_conns (fst (handle_message e from m y)) = x_conns (fst (handle_message e from m x)) /\
+  x_world (fst (handle_message e from m y)) = x_world (fst (handle_message e from m x)).
+Proof.
+  intros e from m x pins' rr' gen' l' Hr Hfx HK y.
+  assert (Hq : is_request m = false) by (unfold is_response in Hr; apply negb_true_iff; exact Hr).
+  subst y. unfold handle_message. rewrite Hq.
+  destruct (mtry s_pop_via m) as [m1 r1]. destruct (mtry next_response_hop m1) as [m2 hop].
+  destruct (mtry s_get_method m2) as [m3 ometh].
+  cbn [x_p x_learned x_conns x_world x_outs graft ps_backends ps_pins].
+  assert (SI : forall h p t mm pa pb,
+     x_outs (fst (send_message e h p t mm {| x_learned := l'; x_p := with_pins (graft pins' rr' gen' (x_p x)) pb; x_conns := x_conns x; x_world := x_world x; x_outs := x_outs x |})) =
+     x_outs (fst (send_message e h p t mm {| x_learned := x_learned x; x_p := with_pins (x_p x) pa; x_conns := x_conns x; x_world := x_world x; x_outs := x_outs x |})) /\
+     x_conns (fst (send_message e h p t mm {| x_learned := l'; x_p := with_pins (graft pins' rr' gen' (x_p x)) pb; x_conns := x_conns x; x_world := x_world x; x_outs := x_outs x |})) =
+     x_conns (fst (send_message e h p t mm {| x_learned := x_learned x; x_p := with_pins (x_p x) pa; x_conns := x_conns x; x_world := x_world x; x_outs := x_outs x |})) /\
+     x_world (fst (send_message e h p t mm {| x_learned := l'; x_p := with_pins (graft pins' rr' gen' (x_p x)) pb; x_conns := x_conns x; x_world := x_world x; x_outs := x_outs x |})) =
+     x_world (fst (send_message e h p t mm {| x_learned := x_learned x; x_p := with_pins (x_p x) pa; x_conns := x_conns x; x_world := x_world x; x_outs := x_outs x |}))).
+  { intros h p t mm pa pb. apply send_message_indep; [exact Hfx|exact HK|repeat split]. }
+  assert (SI0 : forall h p t mm,
+     x_outs (fst (send_message e h p t mm {| x_learned := l'; x_p := graft pins' rr' gen' (x_p x); x_conns := x_conns x; x_world := x_world x; x_outs := x_outs x |})) =
+     x_outs (fst (send_message e h p t mm {| x_learned := x_learned x; x_p := x_p x; x_conns := x_conns x; x_world := x_world x; x_outs := x_outs x |})) /\
+     x_conns (fst (send_message e h p t mm {| x_learned := l'; x_p := graft pins' rr' gen' (x_p x); x_conns := x_conns x; x_world := x_world x; x_outs := x_outs x |})) =
+     x_conns (fst (send_message e h p t mm {| x_learned := x_learned x; x_p := x_p x; x_conns := x_conns x; x_world := x_world x; x_outs := x_outs x |})) /\
+     x_world (fst (send_message e h p t mm {| x_learned := l'; x_p := graft pins' rr' gen' (x_p x); x_conns := x_conns x; x_world := x_world x; x_outs := x_outs x |})) =
+     x_world (fst (send_message e h p t mm {| x_learned := x_learned x; x_p := x_p x; x_conns := x_conns x; x_world := x_world x; x_outs := x_outs x |}))).
+  { intros h p t mm. apply send_message_indep; [exact Hfx|exact HK|repeat split]. }
+  destruct hop as [[[[h p] t]|]| |]; try (repeat split; reflexivity).
+  destruct ometh as [[meth|]| |]; try apply SI0.
+  destruct (beq meth (s2b "SUBSCRIBE")); [|apply SI0].
+  destruct (alookup _ (ps_backends (x_p x))) as [g|]; [|apply SI0].
+  destruct (mtry s_get_dialog m3) as [m' od]. destruct od as [[d|]| |]; try apply SI0. apply SI.
+Qed.
+
+(* ====================================================================== Part 5: round trip *)
+(* where a response goes whose Via headers are those of a request the proxy relayed with its
+   own Via on top and the sender's entry stamped (received-support on) *)
+Theorem C02_roundtrip_return : forall e from r x br t0 src sport v rest t,
+  is_response r = true -> (int_min <= sport <= int_max)%Z ->
+  via_hdrs r = Some [own_via br t0] :: Some (stamp src sport v :: rest) :: t ->
+  exists m4 pins',
+    handle_message e from r x =
+      send_message e src (if kv_has (s2b "rport") (v_params v) then sport else via_get_port v) (v_transport v) m4
+        {| x_learned := x_learned x; x_p := with_pins (x_p x) pins'; x_conns := x_conns x;
+           x_world := x_world x; x_outs := x_outs x |} /\
+    via_hdrs m4 = Some (stamp src sport v :: rest) :: t.
+Proof.
+  intros e from r x br t0 src sport v rest t Hr Hp HV.
+  destruct (C02_response_hop e from r x _ _ _ _ Hr (or_intror HV)) as (m4 & pins' & G1 & _ & _ & G4 & _).
+  exists m4, pins'. split; [|exact G4]. rewrite G1. f_equal.
+  - unfold hop_host. rewrite stamp_received. reflexivity.
+  - unfold hop_port. rewrite stamp_received, stamp_rport by exact Hp. rewrite stamp_port.
+    destruct (kv_has _ _); reflexivity.
+Qed.
+
+(* (e) request q from (src, sport) on a transport with received-support; every copy of it the
+   proxy sends carries q's Via headers with only the sender's entry stamped; when the proxy
+   pushed its own Via, ANY later response carrying that Via stack (whatever the state, the
+   listener, the events in between) is sent to src - to sport iff q's top entry carried an
+   rport parameter, else to its sent-by port - over the sender's transport, and carries q's
+   Via headers, the stamped received/rport being the only difference *)
+Theorem C02_roundtrip : forall e src sport from tcp q x x' v rest t,
+  is_request q = true -> via_hdrs q = Some (v :: rest) :: t -> (int_min <= sport <= int_max)%Z ->
+  process_message e src sport from true tcp q x = Ok x' ->
+  exists outs, x_outs x' = x_outs x ++ outs /\
+    Forall (fun o =>
+      match fst o with
+      | DDial _ _ _ => snd o = []
+      | _ => exists q', snd o = write_message q' /\
+          (via_hdrs q' = Some (stamp src sport v :: rest) :: t
+           \/ exists t0, via_hdrs q' = Some [own_via (e_branch e) t0] :: Some (stamp src sport v :: rest) :: t /\
+                forall e2 from2 r y, is_response r = true -> via_hdrs r = via_hdrs q' ->
+                  exists m4 pins',
+                    handle_message e2 from2 r y =
+                      send_message e2 src (if kv_has (s2b "rport") (v_params v) then sport else via_get_port v)
+                        (v_transport v) m4
+                        {| x_learned := x_learned y; x_p := with_pins (x_p y) pins'; x_conns := x_conns y;
+                           x_world := x_world y; x_outs := x_outs y |} /\
+                    via_hdrs m4 = Some (stamp src sport v :: rest) :: t)
+      end) outs.
+Proof.
+  intros e src sport from tcp q x x' v rest t Hq HV Hp H.
+  destruct (C07_pipeline _ _ _ _ _ _ _ _ _ Hq H) as (outs & H1 & H2). exists outs. split; [exact H1|].
+  rewrite HV in H2. cbn [stamp_hdrs] in H2. eapply Forall_impl; [|exact H2].
+  intros o. unfold relayed_as. destruct (fst o); try (intros E; exact E);
+    intros (q' & E1 & [E2|(t0 & E2)]); exists q'; (split; [exact E1|]); try (left; exact E2);
+    right; exists t0; (split; [exact E2|]); intros e2 from2 r y Hr HR; rewrite E2 in HR;
+    exact (C02_roundtrip_return e2 from2 r y _ _ _ _ _ _ _ Hr Hp HR).
+Qed.
+
+(* ====================================================================== Part 6: pipeline *)
+Definition mpost {A} (x : M A) (P : A -> Prop) : Prop := forall m a, snd (x m) = Ok a -> P a.
+Lemma mpost_mret {A} (a : A) (P : A -> Prop) : P a -> mpost (mret a) P.
+Proof. intros H m a' E. cbn in E. injection E as <-. exact H. Qed.
+Lemma mpost_mbind {A B} (x : M A) (f : A -> M B) (P : A -> Prop) (Q : B -> Prop) :
+  mpost x P -> (forall a, P a -> mpost (f a) Q) -> mpost (mbind x f) Q.
+Proof.
+  intros Hx Hf m b. unfold mbind. specialize (Hx m). destruct (x m) as [m1 r]. cbn [snd] in Hx.
+  destruct r as [a| |]; cbn; try discriminate. apply (Hf a (Hx a eq_refl)).
+Qed.
+Lemma mpost_true {A} (x : M A) : mpost x (fun _ => True).
+Proof. intros m a _. exact I. Qed.
+
+Definition pinsonly (p p' : pstate) : Prop := exists pins', p' = with_pins p pins'.
+Lemma pinsonly_refl p : pinsonly p p.
+Proof. exists (ps_pins p). symmetry. apply with_pins_same. Qed.
+Lemma pinsonly_with p p' a : pinsonly p p' -> pinsonly p (with_pins p' a).
+Proof. intros (b & ->). exists a. reflexivity. Qed.
+
+(* handleDialog only touches the pin table *)
+Lemma handle_dialog_pins e peer port p : mpost (handle_dialog e peer port p) (pinsonly p).
+Proof.
+  unfold handle_dialog.
+  apply mpost_mbind with (P := fun pb => pinsonly p (fst pb)).
+  - destruct (alookup _ (ps_backends p)); [apply mpost_mret, pinsonly_refl|].
+    apply mpost_mbind with (P := fun _ => True); [apply mpost_true|intros tid _].
+    destruct (pins_get (e_now e) tid (ps_pins p)) as [pins1 ob].
+    apply mpost_mbind with (P := fun _ => True); [apply mpost_true|intros fin _].
+    apply mpost_mret. cbn. apply pinsonly_with, pinsonly_refl.
+  - intros [p1 ob] Hp. cbn [fst] in Hp. destruct ob as [b|]; [|apply mpost_mret; exact Hp].
+    apply mpost_mbind with (P := fun _ => True); [apply mpost_true|intros [meth|] _]; [|apply mpost_mret; exact Hp].
+    destruct (beq meth (s2b "INVITE")).
+    + apply mpost_mbind with (P := fun _ => True); [apply mpost_true|intros od _].
+      apply mpost_mbind with (P := fun _ => True); [apply mpost_true|intros ex _].
+      destruct od; apply mpost_mret; [apply pinsonly_with|]; exact Hp.
+    + destruct (beq meth (s2b "BYE")); [|apply mpost_mret; exact Hp].
+      apply mpost_mbind with (P := fun _ => True); [apply mpost_true|intros od _].
+      destruct od; apply mpost_mret; [apply pinsonly_with|]; exact Hp.
+Qed.
+
+(* a response through handleRawMessage: never stamped (whatever rs), no learning, then (a)/(b) *)
+Theorem C02_process_response : forall e peer port from rs tcp m0 x x',
+  is_response m0 = true ->
+  process_message e peer port from rs tcp m0 x = Ok x' ->
+  match top_view (pop_view (via_hdrs m0)) with
+  | Some v2 =>
+      exists m4 pins',
+        x' = fst (send_message e (hop_host v2) (hop_port v2) (v_transport v2) m4
+                   {| x_learned := x_learned x; x_p := with_pins (x_p x) pins'; x_conns := x_conns x;
+                      x_world := x_world x; x_outs := x_outs x |}) /\
+        m_start m4 = m_start m0 /\ m_body m4 = m_body m0 /\ via_hdrs m4 = pop_view (via_hdrs m0)
+  | None => x_outs x' = x_outs x /\ x_conns x' = x_conns x /\ x_world x' = x_world x /\ x_learned x' = x_learned x
+  end.
+Proof.
+  intros e peer port from rs tcp m0 x x' Hr.
+  assert (Hq : is_request m0 = false) by (unfold is_response in Hr; apply negb_true_iff; exact Hr).
+  unfold process_message. cbv zeta. repeat (progress (rewrite ?Hq; cbn [andb]; cbv beta iota)).
+  assert (TP : match tcp with
+               | Some c => (m0, Ok (x_p x))
+               | None => (m0, @Ok pstate (x_p x))
+               end = (m0, Ok (x_p x))) by (destruct tcp; reflexivity).
+  rewrite TP. cbv beta iota zeta.
+  set (m4 := fst (mtry (try_remove_top_route (e_cfg e) from) m0)).
+  assert (V4 : veq m0 m4) by (apply (vpres_mtry _ (vpres_try_remove_top_route _ _))).
+  rewrite (veq_is_response _ _ V4), Hr. clearbody m4.
+  pose proof (vpres_handle_dialog e peer port (x_p x) m4) as VD.
+  pose proof (handle_dialog_pins e peer port (x_p x) m4) as PD.
+  destruct (handle_dialog e peer port (x_p x) m4) as [m5 r]. cbn [fst snd] in VD, PD.
+  assert (V5 : veq m0 m5) by (eapply veq_trans; eassumption).
+  assert (P2 : exists pins2, match r with Ok p' => p' | _ => x_p x end = with_pins (x_p x) pins2).
+  { destruct r as [p'| |]; [exact (PD p' eq_refl)| |]; exists (ps_pins (x_p x)); symmetry; apply with_pins_same. }
+  destruct P2 as (pins2 & ->). intros H. injection H as <-.
+  assert (Q5 : is_request m5 = false) by (rewrite (veq_is_request _ _ V5); exact Hq).
+  destruct V5 as (S5 & B5 & H5).
+  match goal with |- context [handle_message e from m5 ?X] =>
+    pose proof (C02_response_general e from m5 X Q5) as G end.
+  rewrite H5 in G. destruct (top_view (pop_view (via_hdrs m0))) as [v2|].
+  - destruct G as (m6 & pins' & G1 & G2 & G3 & G4). exists m6, pins'. rewrite G1.
+    split; [reflexivity|]. repeat split; congruence.
+  - rewrite G. repeat split.
+Qed.
+
+Theorem C02_step_udp : forall fx c now br st li src sport data lc p m rest st' outs,
+  nth_opt (c_listens c) li = Some lc -> nth_p (st_proxies st) li = Some p ->
+  parse_message data = Ok (m, rest) -> is_response m = true ->
+  proxy_step fx c now br st (EvUdp li src sport data) = Ok (st', outs) ->
+  match top_view (pop_view (via_hdrs m)) with
+  | Some v2 =>
+      exists m4 pins',
+        outs = x_outs (fst (send_message (mk_env fx c (item_rs_of (fx_wiring fx)) li lc now br)
+                              (hop_host v2) (hop_port v2) (v_transport v2) m4
+                              {| x_learned := st_learned st; x_p := with_pins p pins'; x_conns := st_conns st;
+                                 x_world := st_world st; x_outs := [] |})) /\
+        m_start m4 = m_start m /\ m_body m4 = m_body m /\ via_hdrs m4 = pop_view (via_hdrs m)
+  | None => outs = []
+  end.
+Proof.
+  intros fx c now br st li src sport data lc p m rest st' outs EL EP EM Hr H.
+  cbn [proxy_step] in H. rewrite EL, EM in H. unfold run_ctx in H. rewrite EP in H.
+  destruct (process_message _ _ _ _ _ _ _ _) as [x'| |] eqn:E; try discriminate.
+  injection H as <- <-. pose proof (C02_process_response _ _ _ _ _ _ _ _ _ Hr E) as G.
+  cbn [x_learned x_p x_conns x_world x_outs] in G.
+  destruct (top_view (pop_view (via_hdrs m))) as [v2|].
+  - destruct G as (m4 & pins' & -> & G2). exists m4, pins'. split; [reflexivity|exact G2].
+  - apply G.
+Qed.
+
+(* end to end, UDP next hop: exactly one datagram, to the resolved address of the entry on top
+   after the pop, carrying the popped Via headers *)
+Corollary C02_step_udp_relay_udp : forall fx c now br st li src sport data lc p m rest st' outs v2 ip,
+  nth_opt (c_listens c) li = Some lc -> nth_p (st_proxies st) li = Some p ->
+  parse_message data = Ok (m, rest) -> is_response m = true ->
+  proxy_step fx c now br st (EvUdp li src sport data) = Ok (st', outs) ->
+  top_view (pop_view (via_hdrs m)) = Some v2 ->
+  to_lower (v_transport v2) = s2b "udp" -> get_ip c (hop_host v2) = Some ip ->
+  resolvable ip (hop_port v2) = true -> udp_slot_ok ip (hop_port v2) p ->
+  exists m', via_hdrs m' = pop_view (via_hdrs m) /\ m_start m' = m_start m /\ m_body m' = m_body m /\
+             (fits_datagram (write_message m') = true -> outs = [(DUdp ip (hop_port v2), write_message m')]).
+Proof.
+  intros fx c now br st li src sport data lc p m rest st' outs v2 ip EL EP EM Hr H HT Htr Hip Hres Hslot.
+  pose proof (C02_step_udp _ _ _ _ _ _ _ _ _ _ _ _ _ _ _ EL EP EM Hr H) as G. rewrite HT in G.
+  destruct G as (m4 & pins' & -> & G2 & G3 & G4). exists (sent_msg m4).
+  destruct (veq_sent_msg m4) as (V1 & V2 & V3). repeat split; try congruence.
+  intros Hfit.
+  match goal with |- x_outs (fst (send_message ?e ?h ?pt ?tr ?mm ?X)) = _ =>
+    rewrite (C02_dest_udp e h pt tr mm X ip Htr Hip Hres Hslot Hfit) end. reflexivity.
+Qed.
